@@ -37,6 +37,17 @@ def check(run):
     fams = (["general", "pipeline", "stop", "starttls", "starttls2", "starttls-inflight", "starttls-adversarial", "stopstates", "panic", "tls-close", "timeout", "outliving", "long"]
             if not q else ["general", "pipeline", "starttls2", "stop2", "starttls", "starttls-inflight", "tls-close", "long"])
     scenarios, stats = lifecycle.run_families(run, fams, cap=150 if q else 1500)
+    # the runner's own synchronisation (it waits for a released handler to finish before its next action) orders many accesses
+    # that gldap itself does not order: every third scenario with a release is run once more with handlers that finish on
+    # their own time, unsynchronised with the runner's next actions
+    pause = {"a": "sleep", "c": "", "i": 150, "k": "", "s": "", "hold": False}
+    extra = []
+    for s in scenarios:
+        if s["cfg"].get("async_release") or not any(e["a"] == "release" for e in s["behaviour"]):
+            continue
+        if len(extra) * 3 < len(scenarios):
+            extra.append({"id": len(scenarios) + len(extra) + 1, "cfg": dict(s["cfg"], async_release="1"), "behaviour": s["behaviour"] + [pause]})
+    scenarios += extra
     sfile = run.path("scen.ndjson")
     vlib.write_ndjson(sfile, scenarios)
     trace = run.path("trace.ndjson")
